@@ -279,7 +279,7 @@ def start_real(kind, variant):
                                 new_prompt=new, continuation_prompt=cont), (lambda: None)
 
 
-def real_repl(kind, rng, ncmds, ctx, big_sizes, variant):
+def real_repl(kind, rng, ncmds, ctx, big_sizes, variant, use_async=False):
     """generated commands with output known by construction on the real bash / python REPL;
     returns (number of commands, failures)"""
     fails = []
@@ -287,7 +287,8 @@ def real_repl(kind, rng, ncmds, ctx, big_sizes, variant):
         r, cleanup = start_real(kind, variant)
     except Exception as e:
         return 0, [('C16:wrapper-cannot-start', kind + '/' + variant, '<start>', '%s: %s' % (type(e).__name__, str(e)[:300]))]
-    kind_v = kind + '/' + variant
+    kind_v = kind + '/' + variant + ('/awaited' if use_async else '')
+    loop = asyncio.new_event_loop() if use_async else None
     r.child.timeout = 30
     n = 0
     try:
@@ -309,6 +310,9 @@ def real_repl(kind, rng, ncmds, ctx, big_sizes, variant):
                     cmd, want, inc = 'echo "%s' % tok, None, True
                 elif k < 0.82:
                     cmd, want, inc = 'echo LEFT%s\necho "%s' % (tok, tok), None, True          # printed something, then incomplete
+                elif k < 0.86:
+                    ln = rng.choice([4000, 4096, 6000, 9000])                                  # one command line longer than a tty line buffer
+                    cmd, want, inc = 'echo ' + 'q' * ln, 'q' * ln + '\r\n', False
                 else:
                     size = rng.choice(big_sizes)
                     cmd, want, inc = "head -c %d /dev/zero | tr '\\0' x; echo" % size, 'x' * size + '\r\n', False
@@ -331,8 +335,14 @@ def real_repl(kind, rng, ncmds, ctx, big_sizes, variant):
                     size = rng.choice(big_sizes)
                     cmd, want, inc = 'print("x" * %d)' % size, 'x' * size + '\r\n', False
             n += 1
+            if rng.random() < 0.15 and not inc and not cmd.endswith('\n'):
+                # a final newline after a complete command changes nothing (for python it is the blank line that closes a block)
+                cmd = cmd + '\n'
             try:
-                got = r.run_command(cmd, timeout=30)
+                if use_async:
+                    got = loop.run_until_complete(r.run_command(cmd, timeout=30, async_=True))
+                else:
+                    got = r.run_command(cmd, timeout=30)
                 if inc:
                     fails.append(('C16:incomplete-input-does-not-raise-ValueError', kind_v, cmd, repr(got)[:200]))
                 elif got != want:
@@ -349,6 +359,11 @@ def real_repl(kind, rng, ncmds, ctx, big_sizes, variant):
             r.child.close(force=True)
         except Exception:
             pass
+        if loop is not None:
+            try:
+                loop.close()
+            except Exception:
+                pass
         cleanup()
     return n, fails
 
@@ -390,14 +405,17 @@ def run(ctx):
     # real REPLs
     big = [1000, 70000] if ctx.quick() else [1000, 70000, 300000]
     nreal = 0
-    for kind, variant, share in (('bash', 'plain', 1.0), ('bash', 'rc_scalar', 0.3), ('bash', 'rc_array', 0.3), ('bash', 'rc_ps2', 0.3),
-                                 ('python', 'default', 1.0), ('python', 'short_first', 0.4), ('python', 'long_first', 0.4)):
+    for kind, variant, share, use_async in (('bash', 'plain', 1.0, False), ('bash', 'rc_scalar', 0.3, False), ('bash', 'rc_array', 0.3, False),
+                                            ('bash', 'rc_ps2', 0.3, False), ('bash', 'plain', 0.6, True),
+                                            ('python', 'default', 1.0, False), ('python', 'short_first', 0.4, False),
+                                            ('python', 'long_first', 0.4, False), ('python', 'default', 0.6, True)):
         ncmd_real = int((40 if ctx.quick() else 400) * share)
-        n, fails = real_repl(kind, random.Random(ctx.seed * 17 + len(kind) + len(variant)), ncmd_real, ctx, big, variant)
+        n, fails = real_repl(kind, random.Random(ctx.seed * 17 + len(kind) + len(variant) + 7 * use_async), ncmd_real, ctx, big, variant, use_async)
         nreal += n
         for f in fails:
             ctx.fail(f[0], {'repl': f[1], 'command': f[2]}, detail={'what': f[3]}, signature={'repl': f[1]})
-        ctx.note('real %s REPL (%s): %d generated commands (outputs up to %d bytes), %d mismatches' % (kind, variant, n, max(big), len(fails)))
+        ctx.note('real %s REPL (%s%s): %d generated commands (outputs up to %d bytes), %d mismatches' % (
+            kind, variant, ', awaited' if use_async else '', n, max(big), len(fails)))
     # binding self-test
     cands = [t for t in traces if verdicts[t['id']][0] == 'ok' and any(e['e'] == 'cmdret' and e['val'] for e in t['ev'])]
     if common.selftest_possible(ctx, cands, 'a non-empty return value'):
